@@ -12,6 +12,7 @@ A_ = 'value_of(line_addr(lobj))'
 Z_ = 'lobj._memzone'
 
 PLACE = dict(
+    props=['C02', 'C05'],
     where='loop[2].body', locals={'lobj': 'LineObject'},
     requires=['line_wf(lobj)', 'place_wf(lobj)', f'zone_ok({Z_})', f'{Z_}._start >= 0',
               'implies(isa(lobj, "AddressOrgLine"), "GLOBAL" in lobj._memzone_manager._zones)',
@@ -83,6 +84,7 @@ LIST_OK = [
 ]
 
 OVERLAP = dict(
+    props=['C04', 'C02'], shards=12,
     where='loop[3]', locals={LST: 'list[LineObject]', 'last_line': 'LineWithBytes?', 'lobj': 'LineObject'},
     requires=LIST_OK + ['last_line is None',
                         all_lines(f'implies(is_bytes_line({Lj}), len({Lj}._bytes) == 0)')],
